@@ -1,8 +1,8 @@
-import BrushVerif.Model.Wire
-/-! Driver for C18 (stub until the property's model exists). -/
+import BrushVerif.Drv.C02
+/-! Driver for C18: programs with fault leaves go through the C02 request format. -/
 namespace BrushVerif.Drv.C18
 open BrushVerif.Wire
 
-def handle (_toks : List Str) : Str := "unimplemented".toList
+def handle (toks : List Str) : Str := BrushVerif.Drv.C02.handle toks
 
 end BrushVerif.Drv.C18
